@@ -53,7 +53,11 @@ func newFixture(t testing.TB, rng *rand.Rand) *fixture {
 		return libshare.MustNewV0Namespace(id)
 	}
 	filler := mk(0x11)
-	f.ns = []libshare.Namespace{mk(0x33), mk(0x55), mk(0x44)}
+	// 0,1: namespaces with blobs.  2 (0x44): never present, but always inside some row's namespace
+	// range (absence proofs).  3 (0x22): never present; inside the first row's range in blocks that
+	// start with the low filler namespace, outside EVERY row's range in the others.  4 (0x08): never
+	// present and below every row's range in every block.
+	f.ns = []libshare.Namespace{mk(0x33), mk(0x55), mk(0x44), mk(0x22), mk(0x08)}
 	for _, n := range f.ns {
 		f.ref[n.String()] = make([][]*blob.Blob, nBlocks)
 	}
@@ -74,7 +78,10 @@ func newFixture(t testing.TB, rng *rand.Rand) *fixture {
 			}
 			return b
 		}
-		groups[0].blobs = []*blob.Blob{newBlob(filler)}
+		// the low filler opens every odd block (and every block that would be empty without it)
+		if h%2 == 1 || cnt[0]+cnt[1] == 0 {
+			groups[0].blobs = []*blob.Blob{newBlob(filler)}
+		}
 		for i := 0; i < 2; i++ {
 			for j := 0; j < cnt[i]; j++ {
 				groups[i+1].blobs = append(groups[i+1].blobs, newBlob(f.ns[i]))
@@ -109,6 +116,18 @@ func newFixture(t testing.TB, rng *rand.Rand) *fixture {
 	}
 	f.headers = headertest.ExtendedHeadersFromEdsses(t, f.squares)
 	return f
+}
+
+// outsideAll: the namespace lies outside the namespace range of EVERY row root of block h (so the
+// header alone shows that the block cannot hold it); otherwise some row's range covers it.
+func (f *fixture) outsideAll(nsIdx, h int) bool {
+	for _, row := range f.headers[h-1].DAH.RowRoots {
+		out, err := share.IsOutsideRange(f.ns[nsIdx], row, row)
+		if err != nil || !out {
+			return false
+		}
+	}
+	return true
 }
 
 // sameBlobs: exactly the reference blobs, in order.
@@ -191,6 +210,7 @@ type script struct {
 	Name  string `json:"name"`
 	Class string `json:"class"`
 	Subs  int    `json:"subs"`
+	NS    []int  `json:"ns"`       // fixture namespace index per subscription (default 0, 1)
 	Tail  string `json:"tail"`     // answers to retrieval attempts once a stream is ending: allfail | allok | failthenok
 	Offer bool   `json:"offer"`    // keep offering headers while a stream is ending
 	Defer bool   `json:"defer"`    // apply all steps first, let the streams end afterwards (model counterexamples)
@@ -200,6 +220,7 @@ type script struct {
 
 type subscription struct {
 	id         int
+	nsIdx      int
 	ns         libshare.Namespace
 	feed       chan *header.ExtendedHeader
 	out        <-chan *blob.SubscriptionResponse
@@ -214,6 +235,8 @@ type subscription struct {
 	overflow   bool
 	closedSeen bool
 	forced     bool // the harness had to cancel the stream to get rid of it
+	unasked    int  // responses that appeared without a retrieval having been answered (drift)
+	ovHeight   int  // the header that met a full buffer
 	trace      []map[string]any
 	tailQueue  []bool // scripted answers still to be used while ending
 }
@@ -295,7 +318,11 @@ func newScenario(fix *fixture, rep *vh.Report, sc script) *scenario {
 		n = 1
 	}
 	for i := 0; i < n && s.broken == ""; i++ {
-		sb := &subscription{id: i, ns: fix.ns[i], feed: make(chan *header.ExtendedHeader), nextHdr: 1}
+		nsIdx := i
+		if i < len(sc.NS) && sc.NS[i] >= 0 && sc.NS[i] < len(fix.ns) {
+			nsIdx = sc.NS[i]
+		}
+		sb := &subscription{id: i, nsIdx: nsIdx, ns: fix.ns[nsIdx], feed: make(chan *header.ExtendedHeader), nextHdr: 1}
 		ctx, cancel := context.WithCancel(context.Background())
 		sb.cancel = cancel
 		s.feedFor = sb.feed
@@ -321,6 +348,29 @@ func (s *scenario) ending(sb *subscription) bool {
 // waitAttempt blocks until the stub getter is asked on behalf of sb (the loop is then parked
 // inside getAll).  Attempts of other subscriptions are parked for them.
 func (s *scenario) waitAttempt(sb *subscription) bool {
+	return s.waitAttemptFor(sb, s.wd, true)
+}
+
+// noteUnasked: more responses sit in the channel than retrievals were answered successfully --
+// the code produced a response without asking the getter (not what BlobSub.tla describes: drift).
+// The harness keeps going: what such a response carries and when the stream ends is still checked.
+func (s *scenario) noteUnasked(sb *subscription, h int) bool {
+	if n := len(sb.out); n > sb.unconsumed {
+		sb.unasked += n - sb.unconsumed
+		sb.unconsumed = n
+		sb.okAnswered = append(sb.okAnswered, h)
+		s.rep.Count("responses_without_retrieval", 1)
+		return true
+	}
+	return false
+}
+
+// waitAttemptFor waits until the stub is asked on behalf of sb, or a response shows up without any
+// retrieval (returns false then), or patience runs out (mustCome: that is a stuck loop).
+func (s *scenario) waitAttemptFor(sb *subscription, patience time.Duration, mustCome bool) bool {
+	deadline := time.After(patience)
+	tick := time.NewTicker(2 * time.Millisecond)
+	defer tick.Stop()
 	for {
 		select {
 		case ev := <-s.attCh:
@@ -336,8 +386,14 @@ func (s *scenario) waitAttempt(sb *subscription) bool {
 			}
 			e := ev
 			o.pending = &e
-		case <-time.After(s.wd):
-			s.stuck(sb, "the subscription did not start a retrieval after taking a header / after a failed attempt")
+		case <-tick.C:
+			if s.noteUnasked(sb, sb.nextHdr-1) {
+				return false
+			}
+		case <-deadline:
+			if mustCome {
+				s.stuck(sb, "the subscription did not start a retrieval after taking a header / after a failed attempt")
+			}
 			return false
 		}
 	}
@@ -397,6 +453,13 @@ func (s *scenario) onResponse(sb *subscription, r *blob.SubscriptionResponse) {
 			good = false
 			s.violate("C20/response/wrong-header", fmt.Sprintf("height %d: header of the response is not the header fed", h))
 		}
+		if len(s.fix.ref[sb.ns.String()][h-1]) == 0 {
+			if s.fix.outsideAll(sb.nsIdx, h) {
+				s.rep.Count("responses_for_blocks_outside_every_row_range", 1)
+			} else {
+				s.rep.Count("responses_for_blocks_absent_inside_a_row_range", 1)
+			}
+		}
 		if len(r.Blobs) > 0 {
 			s.rep.Count("responses_with_blobs", 1)
 		} else {
@@ -430,13 +493,43 @@ func (s *scenario) doHdr(sb *subscription) bool {
 	if full {
 		// the reader is a full buffer behind: the stream must end now
 		sb.overflow = true
+		sb.ovHeight = h
 		s.rep.Count("overflow_situations", 1)
+		if len(s.fix.ref[sb.ns.String()][h-1]) == 0 {
+			if s.fix.outsideAll(sb.nsIdx, h) {
+				s.rep.Count("overflow_header_absent_outside_every_row_range", 1)
+			} else {
+				s.rep.Count("overflow_header_absent_inside_a_row_range", 1)
+			}
+		}
 		s.finishStream(sb)
 		return true
 	}
 	s.waitAttempt(sb)
 	if sb.pending != nil && sb.pending.height != h {
 		s.violate("C20/retrieval/for-a-different-height", fmt.Sprintf("header %d was taken but the retrieval asks for height %d", h, sb.pending.height))
+	}
+	return true
+}
+
+// doHdrNoWait feeds the next header and gives the retrieval a moment to start, without insisting:
+// used to make the retrievals of two subscriptions for the same height overlap.
+func (s *scenario) doHdrNoWait(sb *subscription) bool {
+	if s.ending(sb) || sb.closedSeen || sb.pending != nil || sb.nextHdr > nBlocks || sb.unconsumed == chanCap {
+		return false
+	}
+	h := sb.nextHdr
+	select {
+	case sb.feed <- s.fix.headers[h-1]:
+	case <-time.After(s.wd):
+		s.stuck(sb, fmt.Sprintf("the subscription did not take header %d from the feed", h))
+		return false
+	}
+	sb.nextHdr++
+	sb.emit("hdr", "h", h)
+	s.rep.Count("headers_fed", 1)
+	if !s.waitAttemptFor(sb, 2*time.Second, false) && sb.pending == nil {
+		s.rep.Count("retrieval_not_started_within_grace", 1)
 	}
 	return true
 }
@@ -502,6 +595,9 @@ func (s *scenario) doAttFailNoWait(sb *subscription) bool {
 }
 
 func (s *scenario) doConsume(sb *subscription) bool {
+	if !sb.closedSeen && sb.pending == nil {
+		s.noteUnasked(sb, sb.nextHdr-1)
+	}
 	if sb.unconsumed == 0 || sb.closedSeen {
 		return false
 	}
@@ -649,6 +745,13 @@ func (s *scenario) finishStream(sb *subscription) {
 				s.checkEnd(sb)
 				return
 			}
+			if sb.overflow && !sb.cancelled && !s.stopped && !sb.feedClosed && !sb.forced && r != nil && r.Header != nil &&
+				int(r.Header.Height) == sb.ovHeight {
+				s.violate("C20/overflow/stream-continues-when-reader-is-a-full-buffer-behind",
+					fmt.Sprintf("subscription %d: header %d arrived while %d responses were unread, yet a response for it was produced", sb.id, sb.ovHeight, chanCap))
+				sb.forced = true
+				sb.cancel()
+			}
 			s.onResponse(sb, r)
 		case ev := <-s.attCh:
 			if ev.sub != sb.id {
@@ -744,6 +847,8 @@ func (s *scenario) apply(st step) bool {
 	switch st.A {
 	case "hdr":
 		return s.doHdr(sb)
+	case "hdrnw":
+		return s.doHdrNoWait(sb)
 	case "att":
 		return s.doAtt(sb, st.Ok)
 	case "attnw":
@@ -886,7 +991,8 @@ func seeded(rng *rand.Rand, n int) []script {
 			}
 		}
 		tails := []string{"allfail", "allok", "failthenok"}
-		out = append(out, script{Name: fmt.Sprintf("seeded-%d", i), Class: "seeded", Subs: subs,
+		perm := rng.Perm(5)
+		out = append(out, script{Name: fmt.Sprintf("seeded-%d", i), Class: "seeded", Subs: subs, NS: perm[:subs],
 			Tail: tails[rng.Intn(3)], Offer: rng.Intn(2) == 0, Steps: st})
 	}
 	return out
@@ -934,6 +1040,72 @@ func streaks() []script {
 					Subs: 1, Tail: "allfail", Bound: 8000, Steps: st})
 			}
 		}
+	}
+	return out
+}
+
+// absentOverflow: subscriptions on namespaces no block contains; the reader stalls (or reads a
+// little) until it is a full buffer behind, and the header that then arrives is a block whose row
+// roots (a) do not cover the namespace at all / (b) cover it without containing it.
+func absentOverflow(fix *fixture) []script {
+	var out []script
+	for _, nsIdx := range []int{3, 4, 2, 0} {
+		for _, wantOutside := range []bool{true, false} {
+			c := -1
+			for k := 0; k <= 10 && chanCap+1+k <= nBlocks; k++ {
+				if fix.outsideAll(nsIdx, chanCap+1+k) == wantOutside && (nsIdx != 0 || len(fix.ref[fix.ns[0].String()][chanCap+k]) == 0) {
+					c = k
+					break
+				}
+			}
+			if c < 0 {
+				continue
+			}
+			var st []step
+			for i := 0; i < chanCap+c; i++ {
+				st = append(st, block(0, i%3%2, false)...)
+				if i >= 2 && i < 2+c {
+					st = append(st, step{A: "consume"})
+				}
+			}
+			st = append(st, step{A: "hdr"}) // meets a full buffer
+			out = append(out, script{Name: fmt.Sprintf("absent-overflow-ns%d-outside=%v-consumed%d", nsIdx, wantOutside, c),
+				Class: "absent", Subs: 1, NS: []int{nsIdx}, Tail: "failthenok", Steps: st})
+		}
+	}
+	return out
+}
+
+// absentTriggers: cancel / stop / feed close at every point of a run over blocks that do not hold
+// the subscribed namespace.
+func absentTriggers() []script {
+	var out []script
+	base := seq(block(0, 0, true), block(0, 1, false), block(0, 0, false), block(0, 0, true), []step{{A: "hdr"}})
+	for _, nsIdx := range []int{3, 4, 2} {
+		for p := 0; p <= len(base); p++ {
+			for _, trig := range []string{"cancel", "stop", "feedclose"} {
+				st := append(append([]step{}, base[:p]...), step{A: trig})
+				out = append(out, script{Name: fmt.Sprintf("absent-ns%d-%s@%d", nsIdx, trig, p), Class: "absent", Subs: 1,
+					NS: []int{nsIdx}, Tail: "allfail", Offer: p%2 == 0, Steps: st})
+			}
+		}
+	}
+	return out
+}
+
+// overlap: two subscriptions on DIFFERENT namespaces get the same header and their retrievals of
+// that height are in flight (gated) at the same time; each must receive the blobs of ITS namespace.
+func overlap() []script {
+	var out []script
+	for _, pair := range [][]int{{0, 1}, {1, 0}, {0, 4}, {3, 2}, {1, 3}} {
+		st := []step{
+			{A: "hdrnw", S: 0}, {A: "hdrnw", S: 1}, {A: "att", S: 0, Ok: true}, {A: "att", S: 1, Ok: true}, {A: "consume", S: 0}, {A: "consume", S: 1},
+			{A: "hdrnw", S: 1}, {A: "hdrnw", S: 0}, {A: "att", S: 1, Ok: true}, {A: "att", S: 0, Ok: true}, {A: "consume", S: 1}, {A: "consume", S: 0},
+			{A: "hdrnw", S: 0}, {A: "hdrnw", S: 1}, {A: "att", S: 0, Ok: false}, {A: "att", S: 1, Ok: true}, {A: "att", S: 0, Ok: true}, {A: "consume", S: 0}, {A: "consume", S: 1},
+			{A: "hdrnw", S: 0}, {A: "hdrnw", S: 1}, {A: "att", S: 1, Ok: false}, {A: "att", S: 0, Ok: true}, {A: "att", S: 1, Ok: true}, {A: "consume", S: 0}, {A: "consume", S: 1},
+		}
+		out = append(out, script{Name: fmt.Sprintf("overlap-ns%d-ns%d", pair[0], pair[1]), Class: "overlap", Subs: 2, NS: pair,
+			Tail: "allok", Steps: st})
 	}
 	return out
 }
@@ -987,6 +1159,9 @@ func TestDriver(t *testing.T) {
 		}
 	}
 	all = append(all, streaks()...)
+	all = append(all, absentOverflow(fix)...)
+	all = append(all, absentTriggers()...)
+	all = append(all, overlap()...)
 	all = append(all, systematic()...)
 	all = append(all, overflow(rng, vh.EnvInt("VERIF_OVERFLOW", 6))...)
 	all = append(all, seeded(rng, vh.EnvInt("VERIF_SEEDED", 200))...)
@@ -1013,6 +1188,10 @@ func TestDriver(t *testing.T) {
 			continue
 		}
 		for _, sb := range s.subs {
+			if sb.unasked > 0 {
+				rep.Inconclusivef("conformance drift: scenario %s, subscription %d: %d response(s) appeared without the getter having been asked -- Subscribe no longer retrieves every header the way BlobSub.tla describes", sc.Name, sb.id, sb.unasked)
+				continue
+			}
 			if sb.forced || !sb.closedSeen {
 				continue
 			}
